@@ -1088,8 +1088,12 @@ func (s *Stage) putFileAway(file *finalFile) (targetPath string, err error) {
 	s.toCache(file, stateFinalized)
 
 	// Clean up the companion (no need to capture an error since it wouldn't
-	// be a deal-breaker anyway)
-	os.Remove(file.path + compExt)
+	// be a deal-breaker anyway) -- unless a newer version of the file began to
+	// arrive while this one was waiting, in which case the companion is now
+	// that version's record of received parts
+	if cmp, _ := readLocalCompanion(file.path, file.name); cmp == nil || cmp.Hash == file.hash {
+		os.Remove(file.path + compExt)
+	}
 	return
 }
 
